@@ -684,7 +684,7 @@ def run(ctx):
                 "algorithm and with model-independent invariants; distinct = distinct (config, complete script)")
     ctx.assume("nameservers are scripted dns.nameserver.Nameserver subclasses; dns.resolver.time/dns.asyncresolver.time are a virtual clock; a timeout outcome consumes exactly the offered timeout")
     ctx.assume("rotate off; no TSIG/EDNS variation (they do not influence the loop)")
-    SHARD_CAP[0] = ctx.pick(12000, 120000)
+    SHARD_CAP[0] = ctx.pick(12000, 400000)
     cfgs = configs(ctx)
     ctx.extra["shard_node_cap"] = SHARD_CAP[0]
     ctx.extra["configs"] = [{k: v for k, v in c.items()} for c in cfgs]
